@@ -41,7 +41,9 @@ SETS = {
         "edition": "2024",
         "bounded": True,
         "bound": "ropes of one inner node (Slice, Concat, Tiled; count <= 3) over Owned leaves of at most 3 symbolic bytes, plus Owned and Zeroed alone; every byte value and every offset <= len + 1",
-        "quick": True,
+        # find_byte is now PROVED in Verus (unit rope, unbounded); the bounded CBMC run stays in the thorough tier as
+        # an independent second opinion on the same contract through another back end
+        "quick": False,
     },
 }
 
